@@ -31,6 +31,19 @@ func (c *Ctx) registryEntries(rel, name string) ([]regEntry, *ssa.Global, error)
 		return nil, nil, fmt.Errorf("%s.%s is not a package variable", rel, name)
 	}
 	var out []regEntry
+	// a registry written as a map literal: the map is filled first and stored to the variable afterwards
+	literal := map[ssa.Value]bool{}
+	for _, fn := range c.ModFuncs {
+		for _, b := range fn.Blocks {
+			for _, ins := range b.Instrs {
+				if st, ok := ins.(*ssa.Store); ok && st.Addr == ssa.Value(g) {
+					if mm, ok := st.Val.(*ssa.MakeMap); ok {
+						literal[mm] = true
+					}
+				}
+			}
+		}
+	}
 	for _, fn := range c.ModFuncs {
 		for _, b := range fn.Blocks {
 			for _, ins := range b.Instrs {
@@ -38,8 +51,9 @@ func (c *Ctx) registryEntries(rel, name string) ([]regEntry, *ssa.Global, error)
 				if !ok {
 					continue
 				}
-				u, ok := mu.Map.(*ssa.UnOp)
-				if !ok || u.X != ssa.Value(g) {
+				if u, ok := mu.Map.(*ssa.UnOp); ok && u.X == ssa.Value(g) {
+				} else if literal[mu.Map] {
+				} else {
 					continue
 				}
 				k, ok := mu.Key.(*ssa.Const)
